@@ -100,3 +100,14 @@ claim('C07', 'model_checking',
       'reader is checked against the writer on the specification; each case is replayed through every fetch/enumeration API.',
       'trusts TLC and the transcription of DWARF 2.6/2.17/7.7.3/7.25/7.28/7.29 and the attribute class tables; one address size per file; '
       'enumeration order not asserted; rows the class tables leave open are set-valued', 'DESIGN.md 5/C07')
+claim('C06', 'model_checking',
+      'TLA+ CFI section writer/scanner (.debug_frame and .eh_frame encodings), DW_CFA instruction table and the DWARF 6.4 interpreter '
+      '(spec/CFI.tla) model-checked by TLC (ReaderEqView, EntriesInOrder, FDELinkedToDesignatedCIE, SplitExact, StackDiscipline, '
+      'RestoreUsesInitial); emitted sections/programs replayed into CallFrameInfo; every corpus CIE/FDE validated as a trace with the same '
+      'interpreter operators (spec/trace/CFITrace.tla)',
+      'TLC enumerates sections of <= 3 entries over CIE versions, DWARF32/64, augmentations and pointer encodings x pcrel x section addresses, FDE-before-CIE '
+      'orders, every single instruction x operand classes x alignment factors, programs of length <= 3 plus simulated programs of 30 instructions, and '
+      'checks scan/split/interpreter properties on the specification; each case is replayed; unwind tables are compared as functions '
+      'location -> rules; 772 (quick) / 5157 (thorough) corpus entries are re-interpreted inside TLC.',
+      'trusts TLC and the transcription of DWARF5 6.4/7.24 and the LSB .eh_frame chapter; operands < 2^21; DW_EH_PE_indirect/datarel etc. and the 64-bit '
+      '.eh_frame length form are outside the quantifier', 'DESIGN.md 5/C06')
